@@ -61,6 +61,10 @@ func main() {
 			genC08(rng, *n, *tier)
 		case "C09":
 			genC09(rng, *n, *tier)
+		case "C17":
+			genC17(rng, *n, *tier)
+		case "C19":
+			genC19(rng, *n, *tier)
 		case "C20":
 			genC20(rng, *n, *tier)
 		default:
